@@ -903,6 +903,10 @@ func (e *lfEngine) renderVal(v lfVal) string {
 		if x.Nil == 1 {
 			return "nil"
 		}
+		// a value built by a modelled constructor (time.Unix(seconds, 0)): what it was built from
+		if inner, ok := x.Inner.(vInt); ok && inner.B != nil && strings.HasPrefix(inner.B.Tag, "unix:") {
+			return inner.B.Tag
+		}
 	case vPtr:
 		if x.Nil == 1 {
 			return "nil"
